@@ -10,6 +10,6 @@ DumpFile == IF "VERIF_DUMP" \in DOMAIN IOEnv THEN IOEnv.VERIF_DUMP ELSE ""
 DumpConstraint ==
   IF DumpFile # "" /\ Complete
     THEN CSVWrite("%1$s", <<ToJson([p |-> [i \in 1..Len(decls) |->
-                                              [k |-> decls[i].k, e |-> decls[i].e, v |-> decls[i].v]]])>>, DumpFile)
+                                              [k |-> decls[i].k, e |-> decls[i].e, v |-> decls[i].v, mu |-> decls[i].mu]]])>>, DumpFile)
     ELSE TRUE
 =============================================================================
